@@ -25,6 +25,23 @@ Streams
              `get_signature_details` hands over for every typed prefix vs Model.IterArgs (total by
              theorem `iterArguments_total`); an exception of the real scan is a property failure
              of get_signatures()[i].index on that prefix.
+  semis      several small statements on ONE line, valid and half-typed (harness/gen/c01_semis.py):
+             below a fixed head `piece ; piece ; piece <tail>`; every way the line can go on after
+             the last `;` (nothing, `;;`, a stray bracket, `else` / `def` / `class` / `except`, an
+             unfinished import / assignment / call, junk) after a piece that ends in a name, with
+             and without a blank in front of the `;`; every kind of last token x every separator;
+             every context (module level, one-line bodies of if / class / def / for / while / with /
+             try / else, indented bodies, last line without newline).  Every position query at
+             every word end / behind every `;` (every column: thorough), reference searches
+             started at the head occurrences of the names the line uses, get_names(references) with
+             goto / infer of every name of the line, the position just behind the line
+             (ValueError and nothing else).  Failures are reported on stream `api` (family semis/...).
+  errstart   the statement-start scan of imports.follow_error_node_imports_if_possible (behind
+             infer / goto / help / get_references for every name inside an error node): the REAL
+             function on stand-ins carrying what it reads (child start positions, `== ';'`, name
+             start / end) for the error nodes of every generated line and for an exhaustive small
+             scope of synthetic child lists vs Model.ErrStart (total by theorem `stmt_start_total`);
+             a disagreement is followed by the property itself at that name.
 """
 import itertools
 import json
@@ -34,11 +51,11 @@ import time
 
 import common
 from common import short
-from gen import api_walk, c01_calls, c01_mixed, texts
+from gen import api_walk, c01_calls, c01_mixed, c01_semis, texts
 
-MODELS = ['Validate', 'ApiHelpers', 'IterArgs']
+MODELS = ['Validate', 'ApiHelpers', 'IterArgs', 'ErrStart']
 MODEL_TARGETS = ['JediModel.Lemmas.ValidateSpec', 'JediModel.Model.ApiHelpers', 'JediModel.Model.IterArgs',
-                 'JediModel.Lemmas.IterArgsSpec']
+                 'JediModel.Lemmas.IterArgsSpec', 'JediModel.Lemmas.ErrStart']
 MANIFEST = dict(
     text='Theorems over the model of helpers.validate_line_column, instantiated with the operators, bounds, '
          'defaults, endswith table and exception classes the translator reads from the source: closed form, '
@@ -55,14 +72,18 @@ MANIFEST = dict(
          'starts before the cursor (any types, values, nesting, cursor); iterArguments_unguarded_eq_raises: '
          'without the guard in front of `before.value` the nodes of `f(a.x =` raise. Tie: translator + '
          'exhaustive small-scope correspondence of the real wrapper + correspondence of the real '
-         '_iter_arguments with the model on the node lists of every typed prefix + whole-API fuzzing and the '
-         'systematic typed-call stream (tests, labelled so).',
+         '_iter_arguments with the model on the node lists of every typed prefix + correspondence of the real '
+         'follow_error_node_imports_if_possible with the model on the error nodes of every generated `;` line and an '
+         'exhaustive small scope of synthetic ones + whole-API fuzzing, the systematic typed-call stream and the '
+         'systematic several-statements-on-one-line stream (tests, labelled so).',
     note='Modelled not verified: parso (tokenizer, error recovery; the well-formedness facts WF of its trees), '
          'the inference engine. Totality of those is sampled by the api / typed streams only. Sandbox: typeshed '
          'is empty; the resulting exceptions are listed as known findings keyed on (exception class, innermost '
          'jedi frame).',
     technique='Lean 4 proof over hand-written model + translator-generated constants and guard tables + '
-              'differential correspondence + API fuzzing + systematic keystroke-by-keystroke enumeration of calls',
+              'differential correspondence + API fuzzing + systematic keystroke-by-keystroke enumeration of calls + '
+              'systematic enumeration of `;`-separated one-line statement sequences (token before the separator x '
+              'continuation after the last separator x context)',
     design='5.C01')
 LEAN_TARGETS = ['JediModel.Props.C01', 'JediModel.Drivers.C01']
 
@@ -1026,6 +1047,361 @@ def stream_mixed_finish(ctx, join):
                                          'position-less definitions under one module_path')
 
 
+# ------------------------------------------------------------------ stream: several statements on one line
+
+SEMIS_QUERIES = [('infer', {}), ('goto', {}), ('help', {}), ('get_references', {'scope': 'file'}), ('complete', {}),
+                 ('get_signatures', {}), ('get_context', {})]
+SEMIS_HEAD_QUERIES = [('get_references', {'scope': 'file'}), ('get_references', {})]
+SEMIS_GLOBAL = [('get_names', {'all_scopes': True, 'definitions': True, 'references': True}), ('get_syntax_errors', {})]
+
+
+def error_node_names(module_node, row):
+    """every name leaf on line `row` that has an error_node ancestor, with what
+    `imports.follow_error_node_imports_if_possible` observes of that error node: for every child
+    its start position and whether `child == ';'`"""
+    out = []
+    leaf = module_node.get_first_leaf()
+    while leaf is not None:
+        if leaf.type == 'name' and leaf.start_pos[0] == row:
+            en = leaf.search_ancestor('error_node')
+            if en is not None:
+                out.append({'children': [[c.start_pos[0], c.start_pos[1], bool(c == ';')] for c in en.children],
+                            'ns': list(leaf.start_pos), 'ne': list(leaf.end_pos), 'name': leaf.value})
+        leaf = leaf.get_next_leaf()
+    return out
+
+
+def semis_item(item):
+    """worker of common.parallel_map (fresh interpreter): one generated line below the head of
+    gen.c01_semis; the position queries at every word end / behind every `;` of the line (every
+    column: `every_column`), reference searches started at the head occurrences of the names the
+    line uses, get_names(references) with goto / infer of every name, then every documented
+    attribute of every result (the unabridged walk once per distinct result of this process)"""
+    import jedi
+    t0 = time.process_time()
+    source = item['source']
+    full = item.get('full', False)
+    max_results = item.get('max_results', 3)
+    out = {'id': item['id'], 'positions': 0, 'queries': 0, 'objects': 0, 'errors': [], 'suppressed': 0,
+           'errnodes': [], 'in_error_node': 0}
+    seen_err = {}
+    cur = {}
+
+    def visit(method, obj):
+        out['objects'] += 1
+
+    def err(method, attr, e):
+        cls, site = exc_key(e)
+        k = (cls, site, attr is None)
+        seen_err[k] = seen_err.get(k, 0) + 1
+        if seen_err[k] > 2:
+            out['suppressed'] += 1
+            return
+        rec = dict(cur)
+        rec.update({'method': method, 'attribute': attr, 'exception': cls, 'site': site,
+                    'message': short(str(e), 200), 'frames': exc_frames(e)})
+        out['errors'].append(rec)
+
+    try:
+        script = jedi.Script(source)
+        out['errnodes'] = error_node_names(script._module_node, item['row'])
+        out['in_error_node'] = len(out['errnodes'])
+    except Exception as e:
+        cur = {'line': None, 'column': None}
+        err('Script', None, e)
+        return out
+
+    def results(lab, res):
+        if res is None:
+            return
+        if not isinstance(res, (list, tuple)):
+            res = [res]
+        for r in list(res)[:max_results]:
+            if type(r).__name__ == 'SyntaxError':
+                api_walk.walk_object(lab, r, visit, err, depth=0)
+                continue
+            ident = cheap_walk(lab, r, err)
+            if not full:
+                if ident in _WALKED:
+                    out['objects'] += 1
+                    continue
+                _WALKED.add(ident)
+            api_walk.walk_object(lab, r, visit, err, depth=1)
+
+    plan = [(l, c, SEMIS_QUERIES) for (l, c, _) in c01_semis.positions(item, item.get('every_column', False), item.get('inside', True))]
+    plan += [(l, c, SEMIS_HEAD_QUERIES) for (l, c, _) in c01_semis.head_positions(item)]
+    for (line, col, queries) in plan:
+        out['positions'] += 1
+        cur = {'line': line, 'column': col}
+        for name, kw in queries:
+            lab = api_walk.label(name, kw)
+            out['queries'] += 1
+            try:
+                res = api_walk.run_query(script, name, kw, line, col)
+            except Exception as e:
+                err(lab, None, e)
+                continue
+            results(lab, res)
+    # just outside the line: ValueError and nothing else
+    first = item['line'].split('\n')[0]
+    cur = {'line': item['row'], 'column': item['col0'] + len(first) + 1, 'outside': True}
+    for name, kw in SEMIS_QUERIES:
+        out['queries'] += 1
+        try:
+            api_walk.run_query(script, name, kw, cur['line'], cur['column'])
+            out['errors'].append(dict(cur, method=api_walk.label(name, kw), attribute=None, exception='(none)',
+                                      site='', message='no exception', frames=''))
+        except Exception as e:
+            if classify(e) != 'ValueError':
+                err(api_walk.label(name, kw), None, e)
+    cur = {'line': None, 'column': None}
+    for name, kw in SEMIS_GLOBAL:
+        lab = api_walk.label(name, kw)
+        out['queries'] += 1
+        try:
+            res = api_walk.run_query(script, name, kw)
+        except Exception as e:
+            err(lab, None, e)
+            continue
+        # the names of the generated line first: goto / infer of each
+        res = sorted(res, key=lambda r: 0 if getattr(r, 'line', None) == item['row'] else 1)
+        mr, max_results = max_results, item.get('max_names', 12)
+        results(lab, res)
+        max_results = mr
+    out['cpu'] = round(time.process_time() - t0, 2)
+    return out
+
+
+def semis_item_or_none(item):
+    return None if item is None else semis_item(item)
+
+
+def stream_semis_start(ctx):
+    import glob
+    import threading
+    rng = ctx.subrng('semis')
+    items = []
+    for k, path in enumerate(sorted(glob.glob(os.path.join(common.CORPUS_DIR, 'C01', 'semis-*.json')))):
+        with open(path, encoding='utf-8') as f:
+            c = json.load(f)
+        it = c01_semis.make((c['ctx'], dict(c01_semis.CONTEXTS)[c['ctx']]), c['line'], c.get('kinds', ['corpus']),
+                            'sk%d' % k)
+        it['every_column'] = True
+        items.append(it)
+    items += c01_semis.lines(rng, ctx.size(6, 200), all_contexts=not ctx.quick, all_kinds=not ctx.quick,
+                             blank_share=ctx.size(0.3, 1.0))
+    for it in items:
+        it.setdefault('every_column', not ctx.quick)
+        it.setdefault('inside', not ctx.quick)
+        it['full'] = not ctx.quick
+        it['max_results'] = ctx.size(3, 6)
+        it['max_names'] = ctx.size(10, 60)
+    jobs = ctx.size(6, 14)
+    order = sorted(range(len(items)), key=lambda i: -len(items[i]['line']))
+    buckets = [[] for _ in range(jobs)]
+    for r, i in enumerate(order):
+        buckets[r % jobs].append(items[i])
+    box = {}
+
+    def work():
+        try:
+            size = max(max(len(b) for b in buckets), 20)
+            padded = []
+            for b in buckets:
+                padded += b + [None] * (size - len(b))
+            res = common.parallel_map('props.c01', 'semis_item_or_none', padded, jobs=jobs, timeout=ctx.size(600, 3000))
+            box['res'] = [r for r in res if r is not None]
+        except BaseException as e:
+            box['exc'] = e
+    th = threading.Thread(target=work, daemon=True)
+    t0 = time.time()
+    th.start()
+
+    def join():
+        th.join()
+        if 'exc' in box:
+            raise box['exc']
+        ctx.notes.append('semis stream workers: %.1fs wall' % (time.time() - t0))
+        return items, box['res']
+    return join
+
+
+class _FakeLeaf:
+    value = 'x'
+
+
+class _FakeChild:
+    """what follow_error_node_imports_if_possible touches of a child of the error node"""
+    def __init__(self, index, start_pos, semi, log):
+        self.index, self.start_pos, self.semi, self.log = index, start_pos, semi, log
+
+    def __eq__(self, other):
+        return self.semi and other == ';'
+
+    def __ne__(self, other):
+        return not self.__eq__(other)
+
+    __hash__ = object.__hash__
+
+    def get_first_leaf(self):
+        self.log.append(self.index)
+        return _FakeLeaf()
+
+
+class _FakeErrorNode:
+    type = 'error_node'
+
+    def __init__(self, children):
+        self.children = children
+
+
+class _FakeName:
+    type = 'name'
+    value = 'x'
+
+    def __init__(self, error_node, start_pos, end_pos):
+        self._en, self.start_pos, self.end_pos = error_node, start_pos, end_pos
+
+    def search_ancestor(self, *types):
+        return self._en if 'error_node' in types else None
+
+
+def errstart_real(children, ns, ne):
+    """the real `follow_error_node_imports_if_possible` on stand-ins that carry exactly what it
+    reads (start positions, `== ';'`): which child is `nodes[0]` -> {'first': index}; the first
+    leaf is not `from` / `import`, so the function returns None after that"""
+    from jedi.inference import imports
+    log = []
+    en = _FakeErrorNode([_FakeChild(i, (c[0], c[1]), bool(c[2]), log) for i, c in enumerate(children)])
+    try:
+        r = imports.follow_error_node_imports_if_possible(None, _FakeName(en, tuple(ns), tuple(ne)))
+    except Exception as e:
+        return {'exc': type(e).__name__}
+    if r is not None or len(log) != 1:
+        return {'exc': 'unexpected result %r, first-leaf reads %r' % (r, log)}
+    return {'first': log[0]}
+
+
+def synthetic_error_nodes(ctx):
+    """small scope, exhaustively: up to `n` children on one line at strictly increasing columns
+    (each a `;` or not), a name that is one of the non-`;` children or lies inside one"""
+    rng = ctx.subrng('errstart')
+    out = []
+    n = ctx.size(3, 4)
+    cols = list(range(0, 2 * n + 1))
+    for k in range(1, n + 1):
+        combos = list(itertools.combinations(cols, k))
+        if ctx.quick and len(combos) > 12:
+            combos = rng.sample(combos, 12)
+        for starts in combos:
+            for semis in itertools.product([False, True], repeat=k):
+                children = [[1, c, s] for c, s in zip(starts, semis)]
+                for i, (c, s) in enumerate(zip(starts, semis)):
+                    if s:
+                        continue
+                    nxt = starts[i + 1] if i + 1 < k else c + 2
+                    # the name is the child itself (ends where the next child starts, or earlier)
+                    # or a later leaf of it
+                    for ns in range(c, nxt):
+                        for ne in range(ns + 1, nxt + 1):
+                            out.append({'children': children, 'ns': [1, ns], 'ne': [1, ne]})
+    # children over several lines, unsorted lists, a name in front of / behind everything
+    for _ in range(ctx.size(300, 5000)):
+        k = rng.randint(0, 5)
+        children = [[rng.randint(1, 3), rng.randint(0, 6), rng.random() < 0.4] for _ in range(k)]
+        if rng.random() < 0.7:
+            children.sort()
+        ns = [rng.randint(1, 3), rng.randint(0, 6)]
+        out.append({'children': children, 'ns': ns, 'ne': [ns[0], ns[1] + rng.randint(1, 3)]})
+    return out
+
+
+def stream_semis_finish(ctx, reqs, join):
+    items, results = join()
+    by_id = {it['id']: it for it in items}
+    how = ('s = jedi.Script(source); r = getattr(s, method)(line, column, **kw); then every documented attribute of '
+           'every result (harness/gen/api_walk.py); source = gen.c01_semis.HEAD + one generated line')
+    cases = []
+    tot = {'positions': 0, 'queries': 0, 'objects': 0, 'suppressed': 0, 'in_error_node': 0, 'cpu': 0.0}
+    sites = {}
+    seen = set()
+    for r in results:
+        it = by_id[r['id']]
+        fam = 'semis/' + it['ctx']
+        for k in tot:
+            tot[k] += r.get(k, 0)
+        for k in it['kinds']:
+            if k.startswith(('tail:', 'last:')) or k in ('blank-before-semicolon', 'no-blank-before-semicolon', 'junk-piece'):
+                d = ctx.hist.setdefault('semis', {})
+                d[k] = d.get(k, 0) + 1
+        ctx.count('semis', ('line', it['source']), nontrivial=r['in_error_node'] > 0,
+                  bucket='%s/%s' % (fam, 'names-in-error-node' if r['in_error_node'] else 'no-name-in-error-node'),
+                  sample={'line': it['line'], 'context': it['ctx'], 'kinds': it['kinds'], 'queries': r['queries'],
+                          'names inside an error node': r['in_error_node']})
+        s = ctx.streams.setdefault('semis', {'evaluations': 0, 'nontrivial': 0})
+        s['evaluations'] += r['queries']
+        s['nontrivial'] += r['queries'] if r['in_error_node'] else 0
+        ctx.evaluations += r['queries']
+        for e in r['errors']:
+            key = (e['exception'], e['site'])
+            sites[key] = sites.get(key, 0) + 1
+            case = {'source': it['source'], 'line': e['line'], 'column': e['column'], 'method': e['method'],
+                    'attribute': e['attribute'], 'exception': e['exception'], 'site': e['site'], 'family': fam,
+                    'generated_line': it['line'], 'kinds': it['kinds']}
+            if e.get('outside'):
+                ctx.fail('api', 'position outside the text: %s instead of ValueError' % (key,), case,
+                         expected='ValueError', observed={'exception': e['exception'], 'site': e['site']}, how=how)
+                continue
+            what = ('result attribute raised %s at %s' if e['attribute'] else 'internal exception %s at %s') % key
+            ctx.fail('api', what, case, expected='completes normally (the position is inside the text)',
+                     observed={'exception': e['exception'], 'site': e['site'], 'message': e['message'],
+                               'frames': e.get('frames', '')}, how=how)
+        # the statement-start scan on the error nodes of this line
+        for en in r['errnodes']:
+            key = json.dumps([en['children'], en['ns'], en['ne']])
+            if key in seen:
+                continue
+            seen.add(key)
+            reqs.append({'op': 'errstart', 'children': en['children'], 'ns': en['ns'], 'ne': en['ne']})
+            cases.append((('errstart', key, it['source'], en['name']), errstart_real(en['children'], en['ns'], en['ne'])))
+    for en in synthetic_error_nodes(ctx):
+        key = json.dumps([en['children'], en['ns'], en['ne']])
+        if key in seen:
+            continue
+        seen.add(key)
+        reqs.append({'op': 'errstart', 'children': en['children'], 'ns': en['ns'], 'ne': en['ne']})
+        cases.append((('errstart', key, None, None), errstart_real(en['children'], en['ns'], en['ne'])))
+    ctx.notes.append('semis stream: %d lines, %d positions, %d queries, %d names inside an error node, %d result objects '
+                     'walked, %.0f cpu-s; internal-exception sites: %s'
+                     % (len(results), tot['positions'], tot['queries'], tot['in_error_node'], tot['objects'], tot['cpu'],
+                        {'%s@%s' % k: v for k, v in sorted(sites.items(), key=lambda kv: -kv[1])}))
+    if results and not tot['in_error_node']:
+        ctx.tie_broken('coverage:semis', 'no generated line put a name inside an error node')
+    return cases
+
+
+def errstart_oracle(ctx, source, ns, impl):
+    """failing-input search for a disagreement of the statement-start scan: the property itself
+    on the public API -- infer / goto / help / get_references at that name"""
+    import jedi
+    line, col = ns[0], ns[1] + 1
+    for name, kw in SEMIS_QUERIES[:4]:
+        lab = api_walk.label(name, kw)
+        try:
+            res = api_walk.run_query(jedi.Script(source), name, kw, line, col)
+            for r in list(res or [])[:3]:
+                cheap_walk(lab, r, lambda *a: None)
+        except Exception as e:
+            cls, site = exc_key(e)
+            ctx.fail('api', 'internal exception %s at %s' % (cls, site),
+                     {'source': source, 'line': line, 'column': col, 'method': lab, 'attribute': None, 'exception': cls,
+                      'site': site, 'family': 'semis/errstart'},
+                     expected='completes normally (the position is inside the text)',
+                     observed={'exception': cls, 'site': site, 'message': short(str(e), 200), 'frames': exc_frames(e)},
+                     how='jedi.Script(source).%s(line, column)' % lab)
+            return
+
+
 def stream_known(ctx):
     """inputs of the listed findings, kept alive so that each KNOWN-FINDING line stays honest"""
     import jedi
@@ -1165,6 +1541,20 @@ def compare(ctx, cases, answers):
                 ctx.tie_broken('correspondence:iterargs', short({'text below the head': tail, 'mode': mode, 'position': [line, col],
                                                                  'impl': impl, 'model': ans}, 600))
                 iterargs_oracle(ctx, tail, typed, mode, line, col, impl)
+        elif stream == 'errstart':
+            _, k, source, name = key
+            children, ns, ne = json.loads(k)
+            ctx.count('errstart', k, nontrivial=any(c[2] for c in children),
+                      bucket='%s/%s' % ('tree' if source is not None else 'synthetic',
+                                        'first=%s' % min(impl['first'], 3) if 'first' in impl else 'exception'),
+                      sample={'children (line, column, is `;`)': children, 'name start': ns, 'name end': ne, 'impl': impl,
+                              'source': source})
+            if ans != impl:
+                ctx.tie_broken('correspondence:errstart', short({'children (line, column, is `;`)': children, 'name start': ns,
+                                                                 'name end': ne, 'impl': impl, 'model': ans,
+                                                                 'source': source}, 600))
+                if source is not None:
+                    errstart_oracle(ctx, source, ns, impl)
         elif stream in ('oncompletion', 'getcode', 'cut'):
             model = ans if not isinstance(ans, dict) else 'EXC:' + ans.get('exc', '?')
             ctx.count('helpers', key, nontrivial=impl != '', bucket=stream)
@@ -1254,6 +1644,7 @@ def run(ctx):
         ctx.notes.append('VERIF_C01_ONLY=%s: the other streams were skipped' % ','.join(sorted(only)))
     join_typed = stream_typed_start(ctx) if on('typed') else None
     join_mixed = stream_mixed_start(ctx) if on('mixed') else None
+    join_semis = stream_semis_start(ctx) if on('semis') else None
     if on('validate'):
         cases += stream_validate(ctx, reqs)
         lap('validate')
@@ -1275,6 +1666,9 @@ def run(ctx):
     if join_mixed is not None:
         stream_mixed_finish(ctx, join_mixed)
         lap('mixed (wait + oracle)')
+    if join_semis is not None:
+        cases += stream_semis_finish(ctx, reqs, join_semis)
+        lap('semis (wait + oracle)')
     if ctx.model_ok:
         answers = common.run_driver_parallel('C01', reqs)
         lap('driver')
@@ -1301,6 +1695,8 @@ def run(ctx):
         'have a first child at their own position; argument / star_expr nodes have two children); a parso node is truthy; '
         'only Operator / Keyword leaves compare equal to a str (stream iterargs compares the real scan with the model on '
         'the node lists of every typed prefix)',
+        'the children of a parso error_node are in text order and a name never lies inside a `;` leaf (hypotheses of '
+        'stmt_start_total; stream errstart feeds the real function and the model the error nodes of every generated line)',
         'which test dominates which `.value` read of _iter_arguments is computed by translator/gen_c01.py:value_reads '
         '(python ast; enclosing if/elif tests, earlier conjuncts of `and`, early returns; single-assignment aliases)',
     ]
